@@ -3,6 +3,7 @@ G1 inventory of mutable globals / function-local statics (source level, every li
    sections in the assembled objects; G2 every writer / address-escape of such an object is on the
    reasoned allow-list; G3 the allow-listed ones are used as documented; G4 manager errors are
    recorded in the manager (shared with C12/C14); G5 no stateful libc / hidden channel."""
+import os
 import re
 from .. import cf, guards, build
 from . import shared
@@ -70,6 +71,39 @@ def _escapes(e, mutable):
     for n in cf.walk(e):
         if n.get('k') == 'ref' and n.get('g') and n['n'] in mutable and '[' in n.get('ty', '') and id(n) not in indexed:
             yield 'escape', n['n']
+
+
+def run_g7(chk, P, rid='G7'):
+    # ---- G7: the per-manager half of the error code does not depend on the process-wide half
+    g7 = chk.rule(rid, 'in the error-code accessors the store to / the return of mb_mgr->imb_errno is decided by the manager alone: no condition '
+                        'on its path reads the process-wide imb_errno (which other managers write)', floor=2)
+    for fname in ('imb_set_errno', 'imb_get_errno'):
+        done = False
+        for tu, f in P.find(fname):
+            if done:
+                break
+            done = True
+            dom = f.dominators()
+            with guards.in_function(f):
+                for b, i, ev in f.events(('assign', 'return')):
+                    x = ev['lhs'] if ev['k'] == 'assign' else (ev.get('val') or ev.get('e') or {})
+                    if not any(nd.get('k') == 'mem' and nd.get('f') == 'imb_errno' and 'IMB_MGR' in (nd.get('rec') or '') for nd in cf.walk(x)):
+                        continue
+                    # every branch condition this block is control dependent on (dominating ifs whose one side only leads here)
+                    conds = []
+                    for d in dom.get(b, ()):
+                        t = f.blocks[d].get('term')
+                        if d != b and t and t['kind'] in ('IfStmt', 'BinaryOperator', 'ConditionalOperator') and any(
+                                s_ is not None and s_ not in dom.get(b, ()) or True for s_ in f.blocks[d]['succ']):
+                            pd_all = all(s_ is not None and (s_ == b or s_ in dom.get(b, ())) for s_ in f.blocks[d]['succ'])
+                            if not pd_all:
+                                conds.append(t.get('fullcond') or t.get('cond') or {})
+                    reads_global = any(nd.get('k') == 'ref' and nd.get('g') and nd['n'] == 'imb_errno' for c in conds for nd in cf.walk(c))
+                    g7.check(not reads_global, '%s:%s@%s' % (fname, ev['k'], ev['loc'].split('/')[-1]), ev['loc'],
+                             '%s: the %s of mb_mgr->imb_errno is conditional on the process-wide imb_errno: what one manager reports or records '
+                             'depends on the last error of any other manager' % (fname, 'store' if ev['k'] == 'assign' else 'return'))
+        if not done:
+            chk.broken('%s not found' % fname)
 
 
 def run(chk):
@@ -218,36 +252,7 @@ def run(chk):
                            'manager/thread may have recorded; read mb_mgr->imb_errno instead' % f.name)
     if not ndef:
         chk.broken('imb_get_errno not found in the library')
-    # ---- G7: the per-manager half of the error code does not depend on the process-wide half
-    g7 = chk.rule('G7', 'in the error-code accessors the store to / the return of mb_mgr->imb_errno is decided by the manager alone: no condition '
-                        'on its path reads the process-wide imb_errno (which other managers write)', floor=2)
-    for fname in ('imb_set_errno', 'imb_get_errno'):
-        done = False
-        for tu, f in P.find(fname):
-            if done:
-                break
-            done = True
-            dom = f.dominators()
-            with guards.in_function(f):
-                for b, i, ev in f.events(('assign', 'return')):
-                    x = ev['lhs'] if ev['k'] == 'assign' else (ev.get('val') or ev.get('e') or {})
-                    if not any(nd.get('k') == 'mem' and nd.get('f') == 'imb_errno' and 'IMB_MGR' in (nd.get('rec') or '') for nd in cf.walk(x)):
-                        continue
-                    # every branch condition this block is control dependent on (dominating ifs whose one side only leads here)
-                    conds = []
-                    for d in dom.get(b, ()):
-                        t = f.blocks[d].get('term')
-                        if d != b and t and t['kind'] in ('IfStmt', 'BinaryOperator', 'ConditionalOperator') and any(
-                                s_ is not None and s_ not in dom.get(b, ()) or True for s_ in f.blocks[d]['succ']):
-                            pd_all = all(s_ is not None and (s_ == b or s_ in dom.get(b, ())) for s_ in f.blocks[d]['succ'])
-                            if not pd_all:
-                                conds.append(t.get('fullcond') or t.get('cond') or {})
-                    reads_global = any(nd.get('k') == 'ref' and nd.get('g') and nd['n'] == 'imb_errno' for c in conds for nd in cf.walk(c))
-                    g7.check(not reads_global, '%s:%s@%s' % (fname, ev['k'], ev['loc'].split('/')[-1]), ev['loc'],
-                             '%s: the %s of mb_mgr->imb_errno is conditional on the process-wide imb_errno: what one manager reports or records '
-                             'depends on the last error of any other manager' % (fname, 'store' if ev['k'] == 'assign' else 'return'))
-        if not done:
-            chk.broken('%s not found' % fname)
+    run_g7(chk, P)
     # ---- G8: the session counter is advanced with a LOCKed instruction
     g8 = chk.rule('G8', 'atomic_uint64_inc advances the counter with a LOCK-prefixed read-modify-write (two managers on two threads draw '
                         'distinct session ids)', floor=1)
@@ -263,6 +268,30 @@ def run(chk):
             g8.check(bool(rmw) and len(locked) == len(rmw), 'atomic_uint64_inc', rel,
                      'atomic_uint64_inc updates memory with %s: without LOCK two threads can draw the same session id' % (
                          '; '.join(t.split('  [')[0].strip() for t in rmw if t not in locked)[:200] or 'no read-modify-write instruction'))
+            # a compare-exchange only succeeds if nobody else advanced the counter in between: it has to be retried
+            from .. import build as _build, asmint as _asmint
+            ent = [e for e in _build.asm_entries() if e['file'].endswith('/' + rel) or e['file'].endswith(rel)]
+            if ent:
+                objs = _build.assemble(ent[:1], tag='g8')
+                insns, labels, funcs, syms = _asmint.parse_obj(objs[ent[0]['file']])
+                order = sorted(insns)
+                for k, a_ in enumerate(order):
+                    if insns[a_]['mn'] == 'cmpxchg':
+                        retry = False
+                        for a2 in order[k + 1:k + 4]:
+                            if insns[a2]['mn'] in ('jnz', 'jne'):
+                                try:
+                                    retry = retry or int(insns[a2]['ops'].split()[0], 16) <= a_
+                                except (ValueError, IndexError):
+                                    pass
+                        g8.check(retry, 'atomic_uint64_inc:retry', rel,
+                                 'atomic_uint64_inc does not retry its compare-exchange when another thread advanced the counter in between: '
+                                 'that thread\'s value is returned again (two sessions with one id)')
+                for o in objs.values():
+                    try:
+                        os.remove(o)
+                    except OSError:
+                        pass
         if not found:
             chk.broken('atomic_uint64_inc not found among the assembled functions')
     except Exception as ex:      # noqa
